@@ -42,7 +42,7 @@ FORMS = ["bare", "$[]", "![]", "$()", "!()", "@$()"]
 
 # the four capture kinds of xonsh (built_ins.subproc_*): forms of one kind run the same code path
 CAPTURE_KIND = {"bare": "hiddenobject", "![]": "hiddenobject", "$[]": "uncaptured", "$()": "stdout", "@$()": "stdout", "!()": "object"}
-TAG = re.compile(r"<(/?)(OLD|IN|[OEI]\d+)>")
+TAG = re.compile(r"<(/?)(OLD|IN|[OEIQ]\d+)>")
 
 
 def locate(sinks):
@@ -145,7 +145,7 @@ def route(case, soft_ok=False):
             stdin = pipe_in.get(i, "")
         else:
             stdin = None
-        otext = f"<O{i}>\n" + (f"<I{i}>{stdin}</I{i}>\n" if stdin is not None else "")
+        otext = f"<O{i}>\n" + (f"<I{i}>{stdin}</I{i}>\n" if stdin is not None else "") + f"<Q{i}>\n"
         etext = f"<E{i}>\n"
         for dest, text in ((out, otext), (err, etext)):
             if dest[0] == "file":
@@ -430,7 +430,7 @@ class C07:
         self.work = os.path.join(scratch, f"c07-{os.getpid()}")
         os.makedirs(self.work, exist_ok=True)
         self.dump = os.path.join(scratch, f"c07-argv-{os.getpid()}.jsonl")
-        self.XSH, self.ex, self.ctx = make_session([self.sb], env={"PWD": self.work, "THREAD_SUBPROCS": True, "VERIF_ARGV_OUT": self.dump, "XONSH_SUBPROC_RAISE_ERROR": False})
+        self.XSH, self.ex, self.ctx = make_session([self.sb], env={"PWD": self.work, "THREAD_SUBPROCS": True, "VERIF_ARGV_OUT": self.dump, "XONSH_SUBPROC_RAISE_ERROR": False, "VERIF_TAGGER_LATE": "1"})
 
         def text(stdin):
             if stdin is None:
@@ -445,23 +445,27 @@ class C07:
                 o += "<I%s>%s</I%s>\n" % (tag, text(stdin), tag)
             return o, "<E%s>\n" % tag
 
+        # every stage writes stdout, then stderr, then stdout once more (<Q>): two streams sent to one file must interleave
         def atag(args, stdin=None, stdout=None, stderr=None):
             o, e = body(args, stdin)
             stdout.write(o)
             stdout.flush()
             stderr.write(e)
             stderr.flush()
+            stdout.write("<Q%s>\n" % args[0])
+            stdout.flush()
             return 0
 
         def ptag(args, stdin=None):
             o, e = body(args, stdin)
             print(o, end="", flush=True)
             print(e, end="", file=sys.stderr, flush=True)
+            print("<Q%s>" % args[0], flush=True)
             return 0
 
         def rtag(args, stdin=None):
             o, e = body(args, stdin)
-            return (o, e, 0)
+            return (o + "<Q%s>\n" % args[0], e, 0)
 
         def utag(args, stdin=None, stdout=None, stderr=None):
             return atag(args, stdin, stdout, stderr)
@@ -556,7 +560,7 @@ class C07:
         kinds = "|".join(s["kind"] for s in case["stages"])
         out = []
         info = {"src": src, "error": err, "sinks": {k: v[:300] for k, v in sinks.items() if v}}
-        ran = any(t[0] in "OE" and t not in ("OLD",) for t in act)
+        ran = any(t[0] in "OEQ" and t not in ("OLD",) for t in act)
         if err and err[0] == "HANG":
             # never-returning commands are C06's subject (races in the capture machinery); the session may hold stuck
             # state afterwards, so it is rebuilt and the case is not judged here
@@ -602,9 +606,9 @@ class C07:
             def who_of(i, stream=None):
                 return f"{proxy_of(case, i)}/{opsig(case, i, stream)}/" + (f"final/{CAPTURE_KIND[form]}" if i == n - 1 else "piped")
 
-            if tag[0] in "OE" and tag[1:].isdigit():
+            if tag[0] in "OEQ" and tag[1:].isdigit():
                 i = int(tag[1:])
-                who = who_of(i, tag[0]) if i < n else "?"
+                who = who_of(i, "O" if tag[0] == "Q" else tag[0]) if i < n else "?"
             else:
                 # <OLD>/<IN>: attribute to the stage owning the file
                 who = "target-file"
@@ -617,7 +621,7 @@ class C07:
             if nalias >= 2 and acls == "nowhere" and case.get("threads", True):
                 out.append(("RACE/alias-stages-2+/stream-lost", info))
             else:
-                out.append((f"MISROUTE/{who}/{tag[0] if tag[1:].isdigit() else tag}:{ecls}->{acls}", info))
+                out.append((f"MISROUTE/{who}/{('O' if tag[0] == 'Q' else tag[0]) if tag[1:].isdigit() else tag}:{ecls}->{acls}", info))
         return out, "routed"
 
     def run_case(self, case, rec):
